@@ -333,6 +333,11 @@ func (i *Info) ChannelCounts() map[string]uint64 {
 	counts := make(map[string]uint64)
 	for k, v := range i.Statistics.ChannelMessageCounts {
 		channel := i.Channels[k]
+		if channel == nil {
+			// the statistics may name a channel the summary does not define
+			// (e.g. a file written without repeated channel records)
+			continue
+		}
 		counts[channel.Topic] = v
 	}
 	return counts
